@@ -51,6 +51,18 @@ def _classes():
     return {'markup': MarkupTemplate, 'newtext': NewTextTemplate, 'oldtext': OldTextTemplate}
 
 
+def _cache_kw(case, kw):
+    """`max_cache_size` of the loader under test: absent = the default (25, more than the files of
+    any generated case), else a small bound so that templates are evicted and parsed again"""
+    kw = dict(kw)
+    c = case.get('cache')
+    if c is None and os.environ.get('C14_FORCE_CACHE'):
+        c = int(os.environ['C14_FORCE_CACHE'])
+    if c is not None:
+        kw['max_cache_size'] = c
+    return kw
+
+
 def _req_kw(req):
     return {} if req == 'dflt' else {'allow_exec': req == 'on'}
 
@@ -160,14 +172,16 @@ def observe(case, cfg=None, wd=None):
         loader = None
         if root['kind'] == 'direct':
             if not root['own_loader']:
-                loader = TemplateLoader([wd.path], auto_reload=cfg['auto_reload'], **_req_kw(cfg['loader']))
+                loader = TemplateLoader([wd.path], auto_reload=cfg['auto_reload'], **_cache_kw(case, _req_kw(cfg['loader'])))
         elif root['kind'] == 'load':
             kw = _req_kw(cfg['loader'])
             if root['cls'] == 'default':
                 kw['default_class'] = cls
-            loader = TemplateLoader([wd.path], auto_reload=cfg['auto_reload'], **kw)
+            loader = TemplateLoader([wd.path], auto_reload=cfg['auto_reload'], **_cache_kw(case, kw))
         else:
             options = {'genshi.search_path': wd.path, 'genshi.auto_reload': cfg['auto_reload']}
+            if case.get('cache') is not None:
+                options['genshi.max_cache_size'] = case['cache']
             if cfg['opt'][0] != 'absent':
                 options['genshi.allow_exec'] = _opt_value(cfg['opt'])
             if root['plugin'] == 'markup':
@@ -527,6 +541,60 @@ def compare_render(pairs, res):
                                       'real': json.dumps(real, sort_keys=True)})
 
 
+def compare_lru(pairs, res):
+    """the bounded-cache model (`ExecLru`: every load goes through an LRU cache of max_cache_size
+    entries, evicted templates are parsed again) against the real loader with that bound: the
+    earlier loads and the root load as one history of load-and-render calls — per call the error,
+    the output of the last one, the sentinel"""
+    sel = [(c, o) for c, o in pairs if c.get('cache') is not None and c['root']['kind'] == 'load'
+           and c['cfg'].get('loader') in G.REQS]
+    lines = []
+    for case, _ in sel:
+        idx = dict((f['name'], i) for i, f in enumerate(case['files']))
+        fm = G.file_map(case)
+        files = proto.dec(render_line(case))[7]
+        hist = [[idx[n], _cap(fm[n]['syn'])] for n in case.get('history', [])]
+        hist.append([0, _cap(case['files'][0]['syn'])])
+        lines.append(proto.line(Atom('C14'), Atom('lruhist'), case['cache'], B(case['cfg']['loader'] != 'off'),
+                                B(case['cfg']['auto_reload']), files, hist))
+    answers = proto.run_lines(lines)
+    for (case, obs), ans in zip(sel, answers):
+        if ans == 'unmodelled':
+            res.count('model:unmodelled (lru)')
+            continue
+        res.streams['lru-history'] = res.streams.get('lru-history', 0) + 1
+        res.count('lru:cache%d' % case['cache'])
+        idx = dict((f['name'], i) for i, f in enumerate(case['files']))
+        real_errs = [_real_err(h[0], h[1] if h[0] != 'ok' else None, idx) for h in obs['history']]
+        real_errs.append(_real_err(obs['outcome'], obs['errfile'], idx))
+        real = {'errs': real_errs, 'sentinel': list(obs['sentinel']),
+                'out': [int(t[1:-1]) for t in obs['out']] if obs['outcome'] == 'ok' else []}
+        try:
+            m = proto.dec(ans)
+            model = {'errs': [_model_err(st[0]) for st in m[0]], 'sentinel': [int(x) for x in m[1]],
+                     'out': [int(x) for x in m[0][-1][1]] if _model_err(m[0][-1][0]) == 'ok' else []}
+        except Exception:  # noqa
+            model = {'bad-answer': ans[:200]}
+
+        def same_err(a, b):
+            if isinstance(a, list) and isinstance(b, list) and b[1] is None:
+                return a[0] == b[0]
+            return a == b
+        if 'diverge' in model.get('errs', []):
+            res.count('model:diverge (lru)')
+            ok = (len(model['errs']) == len(real['errs']) and all(same_err(x, y) for x, y in zip(model['errs'], real['errs']))
+                  and (bool(model['sentinel']) or not real['sentinel']))
+        else:
+            ok = ('errs' in model and len(model['errs']) == len(real['errs'])
+                  and all(same_err(x, y) for x, y in zip(model['errs'], real['errs']))
+                  and model['sentinel'] == real['sentinel'] and model['out'] == real['out'])
+        if len(set(case.get('history', []))) + 1 > case['cache']:
+            res.count('lru:more names than the bound')
+        if not ok:
+            res.disagreements.append({'stream': 'lru-history', 'case': case, 'model': json.dumps(model, sort_keys=True),
+                                      'real': json.dumps(real, sort_keys=True)})
+
+
 # --------------------------------------------------------------------------
 # parse level: MarkupTemplate._parse / NewTextTemplate._parse vs their models
 
@@ -766,6 +834,8 @@ def shard(arg):
     cases = [c for i, c in enumerate(G.enumerate_cases(thorough)) if (i // 48) % nshards == idx]
     rng = random.Random('%s/%s/C14' % (seed, idx))
     cases += [G.random_case(rng) for _ in range(nrandom)]
+    if not os.environ.get('C14_NO_LRU'):
+        cases += [G.random_lru_case(rng) for _ in range(max(20, nrandom // 4))]
     if idx == 0:
         cases = corpus_cases() + cases
     os.makedirs(SCRATCH, exist_ok=True)
@@ -786,6 +856,7 @@ def shard(arg):
                 res.failures.append(fail)
         compare_reach(pairs, res)
         compare_render(pairs, res)
+        compare_lru(pairs, res)
         compare_parse(rng, max(20, nrandom), res)
         if idx == 0:
             compare_parseopt(res)
@@ -898,8 +969,12 @@ def valid_case(case):
                 return False
         else:
             return False
+        cache = case.get('cache')
+        if cache is not None and not (isinstance(cache, int) and not isinstance(cache, bool) and 0 <= cache <= 50):
+            return False
         for n in case.get('history', []):
-            if n not in fm or n == files[0]['name']:
+            # the root's own name among the earlier loads: only in the bounded-cache cases
+            if n not in fm or (n == files[0]['name'] and not (cache is not None and k == 'load')):
                 return False
         return True
     except Exception:  # noqa
